@@ -210,7 +210,7 @@ theorem date_image {i r : List Char} {d : Date} (h : date i = .ok d r) : wfDate 
       · exact Int.natCast_nonneg _
       · show ((digitsVal y : Nat) : Int) ≤ 9999
         unfold digitsVal
-        exact_mod_cast hb
+        omega
     · cases hf
   · cases hf
 
